@@ -56,12 +56,13 @@ type step struct {
 
 // script is what one goroutine of one end does.
 type script struct {
-	End   int
-	Drain int // 0 = scripted steps; 1 = Read loop; 2 = WriteTo loop (never sleeps, re-zeroes an expired read deadline)
-	CanW  bool
-	CanR  bool
-	Bufs  []int
-	Steps []step
+	End    int
+	Drain  int // 0 = scripted steps; 1 = Read loop; 2 = WriteTo loop (never sleeps, re-zeroes an expired read deadline)
+	CanW   bool
+	CanR   bool
+	Closer bool
+	Bufs   []int
+	Steps  []step
 }
 
 // shape is the generated structure of a history (see package comment).
@@ -396,7 +397,8 @@ func genHistory(r *core.RNG) (shape, []*script, int) {
 			scripts = append(scripts, sc)
 		}
 		for i := 0; i < g; i++ {
-			sc := &script{End: end, CanW: canW[i], CanR: canR[i]}
+			// only some goroutines close, so that most histories move data for a while
+			sc := &script{End: end, CanW: canW[i], CanR: canR[i], Closer: r.Chance(1, 3)}
 			L := r.Range(3, 9)
 			for pos := 0; pos < L; pos++ {
 				st := genStep(r, &sh, sc, pos, L, writes < maxWriteIDs-3)
@@ -440,7 +442,7 @@ func genStep(r *core.RNG, sh *shape, sc *script, pos, L int, writesLeft bool) st
 	if sc.CanR {
 		ws = append(ws, wk{kRead, 9}, wk{kWriteTo, 2})
 	}
-	if !sh.NoClose {
+	if !sh.NoClose && sc.Closer {
 		c := 1 + 3*pos/L // closes come late more often than early
 		ws = append(ws, wk{kCloseWrite, c}, wk{kCloseRead, c}, wk{kClose, (c + 1) / 2})
 	}
@@ -557,7 +559,7 @@ func stuckPair(evs []*ev) (w, r *ev) {
 func runSchedules(e *core.Env) {
 	rec := e.Rec
 	rec.Rule("schedules: one case = one netio.NewPipe() with 2-4 goroutines per end running seeded scripts of {Write(n), Read(m), WriteTo(recording writer, optionally with a byte budget), CloseWrite, CloseRead, Close, Set{,Read,Write}Deadline(past|now+d|zero)} separated by virtual sleeps or yields, m in 0..3x the write size; each direction is either 'starve' (one writing goroutine, sleepy finite readers) or 'contend' (2-4 concurrently writing goroutines and a never-sleeping drainer), with one or several reading goroutines; every history ends with Close on both ends. Classes: shape:* = generated structure that ran to completion, ev:* = behaviour actually observed in the recorded history, order:* = distinct orders of return events seen when the same script is run three times (sampled cases)")
-	n := e.N(5000, 500000)
+	n := e.N(5000, 150000)
 	var ordersMu sync.Mutex
 	orders := map[uint64]struct{}{}
 	core.Parallel(e, "schedules", n, 16, func(i int) {
